@@ -250,7 +250,11 @@ func (r *Run) SaveFailure(f *Failure) string {
 	sum := sha256.Sum256(f.Case)
 	dir := filepath.Join(Root(), "replays", r.Prop)
 	_ = os.MkdirAll(dir, 0o755)
-	path := filepath.Join(dir, "v-"+hex.EncodeToString(sum[:6])+".json")
+	prefix := "v-"
+	if os.Getenv("VERIF_REPO") != "" {
+		prefix = "p-" // a development probe against a scratch copy of the repository: kept apart from real findings
+	}
+	path := filepath.Join(dir, prefix+hex.EncodeToString(sum[:6])+".json")
 	_ = os.WriteFile(path, append(data, '\n'), 0o644)
 	r.mu.Lock()
 	r.violation = append(r.violation, path)
